@@ -1,23 +1,34 @@
 /-
   Helper library for C14 (derivative clause): reverse-mode differentiation on a monogamous
-  diagram is a CONSERVATION LAW.
+  diagram is a CONSERVATION LAW; diagrams denote RELATIONS between interface labellings, and every
+  operation of the model acts on these relations functorially.
 
-  Part I (semantic core, plain diagrams, any commutative ring):
-  * `writers / readers`: the lists of write positions (inputs, then all hyperedge targets) and of
-    read positions (outputs, then all hyperedge sources) of a diagram;
-    `monogamous_writers_perm / monogamous_readers_perm`: in a well-formed monogamous diagram both
-    are permutations of the node set (`monogamous_iff_perm`: and conversely);
-  * `pair a t l = Σ_{v ∈ l} a v · t v`; `conservation`: if every hyperedge preserves the pairing of
-    a cotangent labelling `a` with a tangent labelling `t` (what comes in at the targets equals
-    what goes out at the sources), then so does the whole diagram:
-    `pair a t ins = pair a t outs`.  No induction along an order, no acyclicity: a counting
-    argument over the two permutations;
-  * `revDeriv_of_labellings`: hence for a dual-number valuation `valD` and a cotangent labelling
-    `adj` that is edge-wise a reverse derivative, `⟨adj|ins, ε(valD)|ins⟩ = ⟨adj|outs, ε(valD)|outs⟩`
-    — the chain rule for arbitrary wiring.
+  I    `writers / readers`, `monogamous_iff_perm`; `pair`, `conservation`, `revDeriv_of_labellings`
+       (the chain rule for arbitrary wiring: a counting argument, no induction, no acyclicity);
+       `noCycle_of_acyclic`, `exists_valuation`.
+  II   `Lab Φ d lab`, `Den Φ d a b` (the relation denoted w.r.t. a hyperedge predicate `Φ`):
+       quotients (`den_quot`), gluing = relational composition (`den_glue`), juxtaposition =
+       product (`den_juxt`), isomorphism invariance (`den_iso`).
+  III  monogamy of a quotient from its presentation (`monogamous_of_presentation`), invariance under
+       `≅` (`monogamous_iso`), closure under gluing / juxtaposition (`monogamous_glue`,
+       `monogamous_juxt`), permutation spiders (`monogamous_discrete`).
+  IV   `evens / odds / il2 / dbl`, `unbend`, `bendPre`; `monogamous_bend`: the bent substitution
+       of a monogamous circuit is monogamous.
+  V    rankings: `acyclic_of_rank`, `exists_rank_of_acyclic`, `den_rank_of_component`.
+  VI   `den_subst`, `den_unbend`, `unbend_quot`, `unbend_iso`.
+  VII  the model operations semantically: `compose_sem`, `tensor_sem`, `identity_sem`.
+  VIII interleavings: `trTable` / `ilTable` index lemmas, `il_sem`.
+  IX   `glue_both`, `il_bend`, `il_unbend` (conjugation with permutation spiders re-reads interfaces).
+  X    `juxtR`, `den_juxtR`, `toStrict_tensorAll`.
+  XI   `bent`, `den_bent`, `den_adapted`.
+  XII  `dyn_batch` (the strict image of a batch under a generator-wise lax functor).
+  XIII `den_juxtR_segs`;  XIV `valΦ`, `den_val_iff_eval`, `arΦ`, `den_top_of_nodup`;
+  XV   `den_batch_out / den_batch_in`;  XVI `il_roundtrip`.
 -/
 import OHVerif.Lemmas.Lens
 import OHVerif.Props.C16
+import OHVerif.Props.C12Subst
+import OHVerif.Props.C10Iso
 import OHVerif.Props.C14Optic
 import OHVerif.Lemmas.Subst
 import OHVerif.Lemmas.Laws
@@ -25,7 +36,7 @@ import OHVerif.Lemmas.Laws
 namespace OH.RevDeriv
 open OH OH.C14 OH.Subst OH.Optic
 
-variable {O A : Type}
+variable {O A : Type} {O1 A1 O2 A2 : Type}
 
 /-! ## write and read positions -/
 
@@ -2411,5 +2422,743 @@ theorem il_unbend (B : Backend) (hB : B.Lawful) (fa ra fb rb : IC (List O)) (vfa
     exact key
 
 end sandwich
+
+/-! ## Part X: iterated juxtaposition -/
+
+/-- right-nested juxtaposition of a list of diagrams -/
+def juxtR : List (PDiag O A) → PDiag O A
+  | [] => PDiag.empty
+  | Q :: Qs => PDiag.juxt Q (juxtR Qs)
+
+theorem empty_wf : (PDiag.empty : PDiag O A).wf = true := by
+  refine (PDiag.wf_iff _).2 ⟨?_, ?_, ?_⟩ <;> intro _ h <;> cases h
+
+theorem juxtR_wf (Qs : List (PDiag O A)) (h : ∀ Q ∈ Qs, Q.wf = true) : (juxtR Qs).wf = true := by
+  induction Qs with
+  | nil => exact empty_wf
+  | cons Q Qs ih =>
+    exact juxt_wf (h Q (by simp)) (ih (fun Q' hQ' => h Q' (by simp [hQ'])))
+
+theorem monogamous_empty : Monogamous (PDiag.empty : PDiag O A) := by
+  refine ⟨List.nodup_nil, List.nodup_nil, ?_⟩
+  intro v hv
+  exact absurd hv (Nat.not_lt_zero _)
+
+theorem monogamous_juxtR (Qs : List (PDiag O A)) (h : ∀ Q ∈ Qs, Q.wf = true ∧ Monogamous Q) :
+    Monogamous (juxtR Qs) := by
+  induction Qs with
+  | nil => exact monogamous_empty
+  | cons Q Qs ih =>
+    exact monogamous_juxt (h Q (by simp)).1
+      (juxtR_wf Qs (fun Q' hQ' => (h Q' (by simp [hQ'])).1)) (h Q (by simp)).2
+      (ih (fun Q' hQ' => h Q' (by simp [hQ'])))
+
+/-- the relation denoted by an iterated juxtaposition: block-wise -/
+theorem den_juxtR {Φ : A → List T → List T → Prop} [Inhabited T] (Qs : List (PDiag O A))
+    (h : ∀ Q ∈ Qs, Q.wf = true) (a b : List T) :
+    Den Φ (juxtR Qs) a b ↔ ∃ as bs : List (List T), a = as.flatten ∧ b = bs.flatten ∧
+      List.Forall₂ (fun Q (p : List T × List T) => Den Φ Q p.1 p.2) Qs (as.zip bs) ∧
+      as.length = Qs.length ∧ bs.length = Qs.length := by
+  induction Qs generalizing a b with
+  | nil =>
+    constructor
+    · rintro ⟨lab, _, ha, hb⟩
+      refine ⟨[], [], ?_, ?_, List.Forall₂.nil, rfl, rfl⟩
+      · rw [← ha]; rfl
+      · rw [← hb]; rfl
+    · rintro ⟨as, bs, rfl, rfl, _, ha, hb⟩
+      rw [List.length_eq_zero_iff.1 ha, List.length_eq_zero_iff.1 hb]
+      exact ⟨fun _ => default, (fun e he => by cases he), rfl, rfl⟩
+  | cons Q Qs ih =>
+    have hQ := h Q (by simp)
+    have hQs : ∀ Q' ∈ Qs, Q'.wf = true := fun Q' hQ' => h Q' (by simp [hQ'])
+    show Den Φ (PDiag.juxt Q (juxtR Qs)) a b ↔ _
+    rw [den_juxt hQ]
+    constructor
+    · rintro ⟨a1, a2, b1, b2, rfl, rfl, h1, h2⟩
+      obtain ⟨as, bs, rfl, rfl, hf, la, lb⟩ := (ih hQs a2 b2).1 h2
+      exact ⟨a1 :: as, b1 :: bs, by simp, by simp, List.Forall₂.cons h1 hf, by simp [la], by simp [lb]⟩
+    · rintro ⟨as, bs, rfl, rfl, hf, la, lb⟩
+      match as, bs, hf, la, lb with
+      | a1 :: as, b1 :: bs, hf, la, lb =>
+        simp only [List.zip_cons_cons, List.forall₂_cons] at hf
+        simp only [List.length_cons, Nat.add_right_cancel_iff] at la lb
+        exact ⟨a1, as.flatten, b1, bs.flatten, by simp, by simp, hf.1,
+          (ih hQs _ _).2 ⟨as, bs, rfl, rfl, hf.2, la, lb⟩⟩
+
+/-- strictification of an iterated lax tensor is, up to isomorphism, the iterated juxtaposition
+    of the strictifications -/
+theorem toStrict_tensorAll [DecidableEq O] (B : Backend) (hB : B.Lawful) (ds : List (LOHG O A))
+    (ss : List (OHG O A))
+    (hds : List.Forall₂ (fun d s => d.wf = true ∧ LOHG.toStrict B d = .ok s) ds ss) :
+    ∀ (acc : LOHG O A) (sacc : OHG O A), acc.wf = true → LOHG.toStrict B acc = .ok sacc →
+      ∃ r, LOHG.toStrict B (LaxType.tensorAll acc ds) = .ok r ∧ r.wf = true ∧
+        r.toPlain ≅ PDiag.juxt sacc.toPlain (juxtR (ss.map (·.toPlain))) := by
+  induction hds with
+  | nil =>
+    intro acc sacc hacc eacc
+    refine ⟨sacc, eacc, ((C10.toStrict_quotient B hB acc hacc).2.2 sacc eacc).1, ?_⟩
+    show sacc.toPlain ≅ PDiag.juxt sacc.toPlain PDiag.empty
+    rw [C02.juxt_empty_right]
+    exact iso_refl _
+  | @cons d s ds ss hd _ ih =>
+    intro acc sacc hacc eacc
+    obtain ⟨r1, r1', e1, e1', i1⟩ := C10.strict_tensor_iso B hB acc d sacc s hacc hd.1 eacc hd.2
+    have wsacc := ((C10.toStrict_quotient B hB acc hacc).2.2 sacc eacc).1
+    have ws := ((C10.toStrict_quotient B hB d hd.1).2.2 s hd.2).1
+    have wt := LaxStrict.tensor_wf acc d hacc hd.1
+    have wr1 := ((C10.toStrict_quotient B hB _ wt).2.2 r1 e1).1
+    obtain ⟨r, er, wr, ir⟩ := ih (LOHG.tensor acc d) r1 wt e1
+    refine ⟨r, er, wr, ?_⟩
+    have hp := C02.tensor_toPlain sacc s r1' wsacc e1'
+    refine iso_trans ir ?_
+    refine iso_trans (juxt_iso_congr (C03.wfP wr1) i1 (iso_refl _)) ?_
+    rw [hp, C02.juxt_assoc]
+    exact iso_refl _
+
+/-! ## Part XI: bent diagrams and the adapted substitution, semantically -/
+
+/-- the bent form of `c : A ● B' → B ● A'` (`|A| = |A'| = nA`, `|B| = |B'| = nB`): inputs
+    alternate `A` with `A'`, outputs alternate `B` with `B'` -/
+def bent (nA nB : Nat) (c : PDiag O A) : PDiag O A :=
+  ⟨c.nodes, c.edges, il2 (c.ins.take nA) (c.outs.drop nB), il2 (c.outs.take nB) (c.ins.drop nA)⟩
+
+theorem unbend_bent (nA nB : Nat) (c : PDiag O A) (hi : c.ins.length = nA + nB)
+    (ho : c.outs.length = nB + nA) : unbend (bent nA nB c) = c := by
+  have l1 : (c.ins.take nA).length = (c.outs.drop nB).length := by simp; omega
+  have l2 : (c.outs.take nB).length = (c.ins.drop nA).length := by simp; omega
+  show (⟨c.nodes, c.edges, evens (il2 _ _) ++ odds (il2 _ _), evens (il2 _ _) ++ odds (il2 _ _)⟩ :
+    PDiag O A) = c
+  rw [evens_il2 _ _ l1, odds_il2 _ _ l1, evens_il2 _ _ l2, odds_il2 _ _ l2, List.take_append_drop,
+    List.take_append_drop]
+
+theorem bent_wf {nA nB : Nat} {c : PDiag O A} (hc : c.wf = true) (hi : c.ins.length = nA + nB)
+    (ho : c.outs.length = nB + nA) : (bent nA nB c).wf = true := by
+  have := unbend_wf (X := unbend (bent nA nB c)) (by rw [unbend_bent nA nB c hi ho]; exact hc)
+  obtain ⟨x1, x2, x3⟩ := Eval.pdiag_wf_unpack hc
+  have l1 : (c.ins.take nA).length = (c.outs.drop nB).length := by simp; omega
+  have l2 : (c.outs.take nB).length = (c.ins.drop nA).length := by simp; omega
+  refine (PDiag.wf_iff _).2 ⟨?_, ?_, x3⟩
+  · intro v hv
+    rcases mem_evens_odds.1 hv with h | h
+    · rw [show (bent nA nB c).ins = il2 _ _ from rfl, evens_il2 _ _ l1] at h
+      exact x1 v (List.mem_of_mem_take h)
+    · rw [show (bent nA nB c).ins = il2 _ _ from rfl, odds_il2 _ _ l1] at h
+      exact x2 v (List.mem_of_mem_drop h)
+  · intro v hv
+    rcases mem_evens_odds.1 hv with h | h
+    · rw [show (bent nA nB c).outs = il2 _ _ from rfl, evens_il2 _ _ l2] at h
+      exact x2 v (List.mem_of_mem_take h)
+    · rw [show (bent nA nB c).outs = il2 _ _ from rfl, odds_il2 _ _ l2] at h
+      exact x1 v (List.mem_of_mem_drop h)
+
+theorem bent_iface_perm (nA nB : Nat) (c : PDiag O A) (hi : c.ins.length = nA + nB)
+    (ho : c.outs.length = nB + nA) :
+    ((bent nA nB c).ins ++ (bent nA nB c).outs).Perm (c.ins ++ c.outs) := by
+  have l1 : (c.ins.take nA).length = (c.outs.drop nB).length := by simp; omega
+  have l2 : (c.outs.take nB).length = (c.ins.drop nA).length := by simp; omega
+  have p1 := evens_odds_perm (bent nA nB c).ins
+  have p2 := evens_odds_perm (bent nA nB c).outs
+  rw [show (bent nA nB c).ins = il2 _ _ from rfl, evens_il2 _ _ l1, odds_il2 _ _ l1] at p1
+  rw [show (bent nA nB c).outs = il2 _ _ from rfl, evens_il2 _ _ l2, odds_il2 _ _ l2] at p2
+  refine (p1.append p2).trans ?_
+  have e1 : c.ins = c.ins.take nA ++ c.ins.drop nA := (List.take_append_drop _ _).symm
+  have e2 : c.outs = c.outs.take nB ++ c.outs.drop nB := (List.take_append_drop _ _).symm
+  conv_rhs => rw [e1, e2]
+  rw [List.perm_iff_count]
+  intro v
+  simp only [List.count_append]
+  omega
+
+/-- the relation denoted by a bent diagram -/
+theorem den_bent {Φ : A → List T → List T → Prop} (nA nB : Nat) (c : PDiag O A)
+    (hi : c.ins.length = nA + nB) (ho : c.outs.length = nB + nA) (a1 a2 b1 b2 : List T)
+    (h1 : a1.length = nA) (h2 : a2.length = nA) (h3 : b1.length = nB) (h4 : b2.length = nB) :
+    Den Φ (bent nA nB c) (il2 a1 a2) (il2 b1 b2) ↔ Den Φ c (a1 ++ b2) (b1 ++ a2) := by
+  have hb := den_unbend (Φ := Φ) (bent nA nB c) a1 a2 b1 b2 (h1.trans h2.symm) (h3.trans h4.symm)
+    (by show (il2 _ _).length = _
+        rw [il2_length _ _ (by simp; omega), List.length_take, h1]; omega)
+    (by show (il2 _ _).length = _
+        rw [il2_length _ _ (by simp; omega), List.length_take, h3]; omega)
+  rw [unbend_bent nA nB c hi ho] at hb
+  exact hb.symm
+
+theorem dbl_map (l : List Nat) (labW : Nat → T) :
+    (dbl l).map labW = il2 (l.map (fun v => labW (2 * v))) (l.map (fun v => labW (2 * v + 1))) := by
+  unfold dbl
+  rw [← il2_map, List.map_map, List.map_map]
+  rfl
+
+theorem dbl_lt {l : List Nat} {n N : Nat} (hN : N = 2 * n) (hl : ∀ v ∈ l, v < n) :
+    ∀ a ∈ dbl l, a < N := by
+  intro a ha
+  rw [dbl_eq_flatMap] at ha
+  obtain ⟨v, hv, hav⟩ := List.mem_flatMap.1 ha
+  have := hl v hv
+  simp at hav
+  omega
+
+/-- **the adapted substitution**: the relation denoted by the unbent quotient of the substitution
+    presentation on doubled nodes, in terms of a forward and a reverse labelling of the circuit's
+    nodes -/
+theorem den_adapted {Φ : A → List T → List T → Prop} {W : List O} {ins outs S Tt : List Nat}
+    {X ot : PDiag O A} (n : Nat) (hX : X.wf = true) (hW : W.length = 2 * n)
+    (hins : ∀ v ∈ ins, v < n) (houts : ∀ v ∈ outs, v < n) (hS : ∀ v ∈ S, v < n)
+    (hT : ∀ v ∈ Tt, v < n) (lX : X.ins.length = 2 * S.length) (lX' : X.outs.length = 2 * Tt.length)
+    (h : IsQuot (substP W (dbl ins) (dbl outs) X) (substR W (dbl S) (dbl Tt) X) ot)
+    (xa db yb ga : List T) (l1 : xa.length = ins.length) (l2 : ga.length = ins.length)
+    (l3 : yb.length = outs.length) (l4 : db.length = outs.length) :
+    Den Φ (unbend ot) (xa ++ db) (yb ++ ga) ↔ ∃ fv rv : Nat → T, ins.map fv = xa ∧
+      outs.map rv = db ∧ outs.map fv = yb ∧ ins.map rv = ga ∧
+      Den Φ X (il2 (S.map fv) (S.map rv)) (il2 (Tt.map fv) (Tt.map rv)) := by
+  obtain ⟨q, _, _, _, _, _, hqi, hqo⟩ := id h
+  have li : ot.ins.length = 2 * xa.length := by
+    rw [hqi, List.length_map]
+    show (dbl ins).length = _
+    rw [dbl_length, l1]
+  have lo : ot.outs.length = 2 * yb.length := by
+    rw [hqo, List.length_map]
+    show (dbl outs).length = _
+    rw [dbl_length, l3]
+  rw [den_unbend ot xa ga yb db (l1.trans l2.symm) (l3.trans l4.symm) li lo,
+    den_subst hX (dbl_lt hW hins) (dbl_lt hW houts) (dbl_lt hW hS) (dbl_lt hW hT)
+      (by rw [dbl_length, lX]) (by rw [dbl_length, lX']) h]
+  constructor
+  · rintro ⟨labW, hd, ha, hb⟩
+    rw [dbl_map] at ha hb
+    rw [dbl_map, dbl_map] at hd
+    obtain ⟨e1, e2⟩ := il2_inj (by simp) (l1.trans l2.symm) ha
+    obtain ⟨e3, e4⟩ := il2_inj (by simp) (l3.trans l4.symm) hb
+    exact ⟨_, _, e1, e4, e3, e2, hd⟩
+  · rintro ⟨fv, rv, e1, e4, e3, e2, hd⟩
+    have key : ∀ l : List Nat,
+        (dbl l).map (fun i => if i % 2 = 0 then fv (i / 2) else rv (i / 2)) =
+          il2 (l.map fv) (l.map rv) := by
+      intro l
+      rw [dbl_map]
+      congr 1
+      · apply List.map_congr_left
+        intro v _
+        have h1 : 2 * v % 2 = 0 := by omega
+        have h2 : 2 * v / 2 = v := by omega
+        simp only [h1, h2, if_true]
+      · apply List.map_congr_left
+        intro v _
+        have h1 : (2 * v + 1) % 2 = 1 := by omega
+        have h2 : (2 * v + 1) / 2 = v := by omega
+        simp only [h1, h2]
+        simp
+    refine ⟨fun i => if i % 2 = 0 then fv (i / 2) else rv (i / 2), ?_, ?_, ?_⟩
+    · rw [key, key]; exact hd
+    · rw [key, e1, e2]
+    · rw [key, e3, e4]
+
+/-! ## Part XII: the strict image of a batch under a generator-wise lax functor -/
+
+theorem forall₂_map_of_mem {α β γ : Type} (l : List α) (f : α → β) (g : α → γ)
+    (R : β → γ → Prop) (h : ∀ x ∈ l, R (f x) (g x)) : List.Forall₂ R (l.map f) (l.map g) := by
+  induction l with
+  | nil => exact List.Forall₂.nil
+  | cons x l ih =>
+    exact List.Forall₂.cons (h x (by simp)) (ih (fun y hy => h y (by simp [hy])))
+
+/-- `DynFunctor::map_operations` on a valid batch all of whose generators have defined,
+    well-formed, strictifiable images with known boundary types (arbitrary ones — e.g. with a
+    residual): defined, well-formed, of the concatenated type, and isomorphic to the juxtaposition
+    of the strictified generator images -/
+theorem dyn_batch [DecidableEq O2] (B : Backend) (hB : B.Lawful) (G : LFunctor O1 A1 O2 A2)
+    (img : A1 → List O1 → List O1 → LOHG O2 A2) (simg : A1 → List O1 → List O1 → OHG O2 A2)
+    (srcOf tgtOf : A1 × List O1 × List O1 → List O2) (ops : Operations O1 A1)
+    (ha : ops.a.valid = true) (hb : ops.b.valid = true)
+    (h : ∀ t ∈ C12.opTriples ops, G.mapOperation t.1 t.2.1 t.2.2 = .ok (img t.1 t.2.1 t.2.2) ∧
+      (img t.1 t.2.1 t.2.2).wf = true ∧
+      LOHG.toStrict B (img t.1 t.2.1 t.2.2) = .ok (simg t.1 t.2.1 t.2.2) ∧
+      (simg t.1 t.2.1 t.2.2).source = .ok (srcOf t) ∧ (simg t.1 t.2.1 t.2.2).target = .ok (tgtOf t)) :
+    ∃ fx, (LFunctor.toDyn B G).mapOperations ops = .ok fx ∧ fx.WF ∧
+      fx.source = .ok ((C12.opTriples ops).flatMap srcOf) ∧
+      fx.target = .ok ((C12.opTriples ops).flatMap tgtOf) ∧
+      fx.toPlain ≅ juxtR ((C12.opTriples ops).map (fun t => (simg t.1 t.2.1 t.2.2).toPlain)) := by
+  have hcons : ∀ t ∈ C12.opTriples ops, C09.LabelConsistent (img t.1 t.2.1 t.2.2).hypergraph :=
+    fun t ht => (C10.toStrict_quotient B hB _ (h t ht).2.1).1.1 ⟨_, (h t ht).2.2.1⟩
+  let ds := (C12.opTriples ops).map (fun t => img t.1 t.2.1 t.2.2)
+  have hds : ∀ d ∈ ds, d.wf = true ∧ C09.LabelConsistent d.hypergraph := by
+    intro d hd
+    obtain ⟨t, ht, rfl⟩ := List.mem_map.1 hd
+    exact ⟨(h t ht).2.1, hcons t ht⟩
+  obtain ⟨k1, k2, k3, k4, _⟩ :=
+    LaxType.tensorAll_spec ds (LOHG.empty : LOHG O2 A2) rfl LaxType.labelConsistent_empty hds
+  obtain ⟨fx, hfx, hfxW, hfxs, hfxt, _⟩ := LaxType.toStrict_type B hB _ k1 k2
+  have hsrc : ∀ t ∈ C12.opTriples ops, LaxType.srcTy (img t.1 t.2.1 t.2.2) = srcOf t ∧
+      LaxType.tgtTy (img t.1 t.2.1 t.2.2) = tgtOf t := by
+    intro t ht
+    obtain ⟨r, hr, _, hrs, hrt, _⟩ := LaxType.toStrict_type B hB _ (h t ht).2.1 (hcons t ht)
+    rw [(h t ht).2.2.1] at hr
+    cases hr
+    have h1 := (LaxType.source_ok _ (h t ht).2.1).1
+    have h2 := (LaxType.source_ok _ (h t ht).2.1).2
+    rw [← hrs, (h t ht).2.2.2.1] at h1
+    rw [← hrt, (h t ht).2.2.2.2] at h2
+    exact ⟨(Res.ok.inj h1).symm, (Res.ok.inj h2).symm⟩
+  have hflat : ∀ (ty : LOHG O2 A2 → List O2) (of : A1 × List O1 × List O1 → List O2),
+      (∀ t ∈ C12.opTriples ops, ty (img t.1 t.2.1 t.2.2) = of t) →
+      ds.flatMap ty = (C12.opTriples ops).flatMap of := by
+    intro ty of hp
+    show ((C12.opTriples ops).map _).flatMap ty = _
+    rw [List.flatMap_map]
+    exact List.flatMap_congr hp
+  -- the isomorphism with the juxtaposition
+  obtain ⟨e0, he0, we0, ie0, _⟩ := C10.toStrict_lawful_spec B hB (LOHG.empty : LOHG O2 A2) rfl rfl
+  have hF2 : List.Forall₂ (fun d s => d.wf = true ∧ LOHG.toStrict B d = .ok s) ds
+      ((C12.opTriples ops).map (fun t => simg t.1 t.2.1 t.2.2)) :=
+    forall₂_map_of_mem _ _ _ _ (fun t ht => ⟨(h t ht).2.1, (h t ht).2.2.1⟩)
+  obtain ⟨r', hr', _, ir'⟩ := toStrict_tensorAll B hB ds _ hF2 LOHG.empty e0 rfl he0
+  rw [hfx] at hr'
+  cases hr'
+  refine ⟨fx, ?_, hfxW, ?_, ?_, ?_⟩
+  · rw [C12.dyn_mapOperations_eq B G img ops ha hb (fun t ht => (h t ht).1)]
+    exact hfx
+  · rw [hfxs, (LaxType.source_ok _ k1).1]
+    show Res.ok (LaxType.srcTy _) = _
+    rw [k3, hflat LaxType.srcTy srcOf (fun t ht => (hsrc t ht).1)]
+    rfl
+  · rw [hfxt, (LaxType.source_ok _ k1).2]
+    show Res.ok (LaxType.tgtTy _) = _
+    rw [k4, hflat LaxType.tgtTy tgtOf (fun t ht => (hsrc t ht).2)]
+    rfl
+  · refine iso_trans ir' ?_
+    have : (LaxStrict.plain (LOHG.empty : LOHG O2 A2)) = PDiag.empty := rfl
+    rw [this] at ie0
+    have i2 := juxt_iso_congr (G := juxtR (((C12.opTriples ops).map
+      (fun t => simg t.1 t.2.1 t.2.2)).map (·.toPlain))) (C03.wfP we0)
+      (iso_symm empty_wf ie0) (iso_refl _)
+    rw [C02.juxt_empty_left] at i2
+    have e : ((C12.opTriples ops).map (fun t => simg t.1 t.2.1 t.2.2)).map (·.toPlain) =
+        (C12.opTriples ops).map (fun t => (simg t.1 t.2.1 t.2.2).toPlain) := by
+      rw [List.map_map]; rfl
+    rw [e] at i2 ⊢
+    exact i2
+
+/-! ## Part XIII: block-wise reading of an iterated juxtaposition -/
+
+theorem forall₂_of_getD {α β : Type} (R : α → β → Prop) (da : α) (db : β) :
+    ∀ (l : List α) (l' : List β), l.length = l'.length →
+      (∀ k, k < l.length → R (l.getD k da) (l'.getD k db)) → List.Forall₂ R l l'
+  | [], [], _, _ => List.Forall₂.nil
+  | x :: l, y :: l', h, hk => by
+    refine List.Forall₂.cons (hk 0 (by simp)) (forall₂_of_getD R da db l l' (by simpa using h) ?_)
+    intro k hk'
+    have := hk (k + 1) (by simpa using hk')
+    simpa using this
+  | [], _ :: _, h, _ => by simp at h
+  | _ :: _, [], h, _ => by simp at h
+
+theorem getD_of_forall₂ {α β : Type} {R : α → β → Prop} (da : α) (db : β) {l : List α}
+    {l' : List β} (h : List.Forall₂ R l l') : ∀ k, k < l.length → R (l.getD k da) (l'.getD k db) := by
+  induction h with
+  | nil => intro k hk; simp at hk
+  | cons h1 _ ih =>
+    intro k hk
+    cases k with
+    | zero => simpa using h1
+    | succ k => simpa using ih k (by simpa using hk)
+
+theorem zip_getD {α β : Type} (as : List α) (bs : List β) (da : α) (db : β) (k : Nat)
+    (h : as.length = bs.length) : (as.zip bs).getD k (da, db) = (as.getD k da, bs.getD k db) := by
+  simp only [List.getD_eq_getElem?_getD]
+  by_cases hk : k < as.length
+  · have hk' : k < bs.length := h ▸ hk
+    rw [List.getElem?_eq_getElem (by simp [hk, hk'] : k < (as.zip bs).length),
+      List.getElem?_eq_getElem hk, List.getElem?_eq_getElem hk']
+    simp
+  · rw [List.getElem?_eq_none (by simp; omega), List.getElem?_eq_none (by omega),
+      List.getElem?_eq_none (by omega)]
+    rfl
+
+/-- the relation denoted by an iterated juxtaposition, read block by block -/
+theorem den_juxtR_segs {Φ : A → List T → List T → Prop} [Inhabited T] (Qs : List (PDiag O A))
+    (hQ : ∀ Q ∈ Qs, Q.wf = true) (a b : List T)
+    (ha : a.length = (Qs.map (·.ins.length)).sum) (hb : b.length = (Qs.map (·.outs.length)).sum) :
+    Den Φ (juxtR Qs) a b ↔ ∀ k, k < Qs.length →
+      Den Φ (Qs.getD k PDiag.empty) ((splitSegs (Qs.map (·.ins.length)) a).getD k [])
+        ((splitSegs (Qs.map (·.outs.length)) b).getD k []) := by
+  rw [den_juxtR Qs hQ]
+  constructor
+  · rintro ⟨as, bs, rfl, rfl, hf, la, lb⟩
+    have h1 : as.map List.length = Qs.map (·.ins.length) := by
+      apply List.ext_getElem
+      · simp [la]
+      · intro k h1 h2
+        simp only [List.length_map] at h1 h2
+        have := getD_of_forall₂ PDiag.empty (([], []) : List T × List T) hf k h2
+        rw [zip_getD as bs [] [] k (la.trans lb.symm)] at this
+        have hl := (den_length this).1
+        simp only [List.getD_eq_getElem?_getD, List.getElem?_eq_getElem h1,
+          List.getElem?_eq_getElem h2, Option.getD_some] at hl
+        simpa using hl
+    have h2 : bs.map List.length = Qs.map (·.outs.length) := by
+      apply List.ext_getElem
+      · simp [lb]
+      · intro k h1 h2
+        simp only [List.length_map] at h1 h2
+        have := getD_of_forall₂ PDiag.empty (([], []) : List T × List T) hf k h2
+        rw [zip_getD as bs [] [] k (la.trans lb.symm)] at this
+        have hl := (den_length this).2
+        simp only [List.getD_eq_getElem?_getD, List.getElem?_eq_getElem h1,
+          List.getElem?_eq_getElem h2, Option.getD_some] at hl
+        simpa using hl
+    intro k hk
+    rw [← h1, ← h2, splitSegs_map_length_flatten, splitSegs_map_length_flatten]
+    have := getD_of_forall₂ PDiag.empty (([], []) : List T × List T) hf k hk
+    rwa [zip_getD as bs [] [] k (la.trans lb.symm)] at this
+  · intro h
+    refine ⟨splitSegs (Qs.map (·.ins.length)) a, splitSegs (Qs.map (·.outs.length)) b, ?_, ?_, ?_,
+      by simp, by simp⟩
+    · rw [splitSegs_flatten _ _ (Nat.le_of_eq ha)]
+    · rw [splitSegs_flatten _ _ (Nat.le_of_eq hb)]
+    · apply forall₂_of_getD _ PDiag.empty (([], []) : List T × List T)
+      · simp
+      · intro k hk
+        rw [zip_getD _ _ [] [] k (by simp)]
+        exact h k hk
+
+/-! ## Part XIV: valuations as labellings; arities as labellings -/
+
+/-- the hyperedge predicate of valuations -/
+def valΦ (opfn : A → List T → List T) : A → List T → List T → Prop := fun l xs ys => ys = opfn l xs
+
+/-- on a well-formed monogamous acyclic diagram with an arity-respecting interpreter the relation
+    denoted w.r.t. the valuation predicate is the graph of the model evaluator -/
+theorem den_val_iff_eval (B : Backend) (hB : B.Lawful) (C : OHG O A) (hC : C.wf = true)
+    (hac : Acyclic C.toPlain) (hm : Monogamous C.toPlain) (opfn : A → List T → List T)
+    (har : C16.ArityOK C opfn) (dflt : T) (a b : List T) (ha : a.length = C.s.table.length) :
+    Den (valΦ opfn) C.toPlain a b ↔ Graph.eval B C dflt a (Eval.applyOf opfn) = .ok b := by
+  have hwf := Eval.toPlain_wf C hC
+  have hop := opAcyclic_of_acyclic C hC hac
+  have hsw := monogamous_singleWriter hwf hm
+  constructor
+  · rintro ⟨lab, hl, hi, ho⟩
+    have hval : IsValuation C.toPlain opfn dflt a lab := by
+      refine ⟨hi, hl, ?_⟩
+      intro v hv hni hnt
+      exfalso
+      rcases monogamous_written hwf hm v hv with h | ⟨e, he, hve⟩
+      · exact hni h
+      · exact hnt e he hve
+    rw [C16.eval_eq_of_valuation B hB C hC opfn dflt a hop hsw har ha hval]
+    exact congrArg Res.ok ho
+  · intro hev
+    obtain ⟨outs, val, hev', hval, houts⟩ := C16.eval_spec B hB C hC opfn dflt a hop hsw har ha
+    rw [hev] at hev'
+    cases hev'
+    exact ⟨val, hval.ops, hval.ins, houts.symm⟩
+
+/-- the hyperedge predicate of the arity discipline -/
+def arΦ {S : Type} (opfn : A → List S → List S) : A → List Unit → List Unit → Prop :=
+  fun l xs ys => ∀ args : List S, args.length = xs.length → (opfn l args).length = ys.length
+
+theorem arityOK_iff_lab {S : Type} (C : OHG O A) (opfn : A → List S → List S) (lab : Nat → Unit) :
+    C16.ArityOK C opfn ↔ Lab (arΦ opfn) C.toPlain lab := by
+  unfold C16.ArityOK Lab arΦ
+  constructor
+  · intro h e he args hargs
+    rw [List.length_map] at hargs ⊢
+    exact h e he args hargs
+  · intro h e he args hargs
+    have := h e he args (by rw [List.length_map]; exact hargs)
+    rwa [List.length_map] at this
+
+theorem den_ar_of_arityOK {S : Type} (C : OHG O A) (opfn : A → List S → List S)
+    (h : C16.ArityOK C opfn) (a b : List Unit) (ha : a.length = C.toPlain.ins.length)
+    (hb : b.length = C.toPlain.outs.length) : Den (arΦ opfn) C.toPlain a b := by
+  refine ⟨fun _ => (), (arityOK_iff_lab C opfn _).1 h, ?_, ?_⟩
+  · apply List.ext_getElem <;> simp [ha]
+  · apply List.ext_getElem <;> simp [hb]
+
+theorem arityOK_of_den {S : Type} (C : OHG O A) (opfn : A → List S → List S) {a b : List Unit}
+    (h : Den (arΦ opfn) C.toPlain a b) : C16.ArityOK C opfn := by
+  obtain ⟨lab, hl, _, _⟩ := h
+  exact (arityOK_iff_lab C opfn lab).2 hl
+
+/-- interface positions that are distinct nodes can be labelled freely (no hyperedge
+    constraint) -/
+theorem den_top_of_nodup [Inhabited T] (d : PDiag O A) (hnd : (d.ins ++ d.outs).Nodup)
+    (a b : List T) (ha : a.length = d.ins.length) (hb : b.length = d.outs.length) :
+    Den (fun _ _ _ => True) d a b := by
+  have hnI : d.ins.Nodup := (List.nodup_append.1 hnd).1
+  have hnO : d.outs.Nodup := (List.nodup_append.1 hnd).2.1
+  have hdisj : ∀ v ∈ d.outs, v ∉ d.ins := fun v ho hi => (List.nodup_append.1 hnd).2.2 v hi v ho rfl
+  refine ⟨fun v => if v ∈ d.ins then a.getD (d.ins.idxOf v) default
+    else b.getD (d.outs.idxOf v) default, fun _ _ => trivial, ?_, ?_⟩
+  · apply List.ext_getElem
+    · rw [List.length_map, ha]
+    · intro k h1 h2
+      simp only [List.length_map] at h1
+      rw [List.getElem_map, if_pos (List.getElem_mem h1), hnI.idxOf_getElem k h1]
+      simp [List.getD_eq_getElem?_getD, List.getElem?_eq_getElem h2]
+  · apply List.ext_getElem
+    · rw [List.length_map, hb]
+    · intro k h1 h2
+      simp only [List.length_map] at h1
+      rw [List.getElem_map, if_neg (hdisj _ (List.getElem_mem h1)), hnO.idxOf_getElem k h1]
+      simp [List.getD_eq_getElem?_getD, List.getElem?_eq_getElem h2]
+
+/-- conversely, a labelling that separates the interface positions shows that they are distinct
+    nodes -/
+theorem nodup_of_den {Φ : A → List T → List T → Prop} {d : PDiag O A} {a b : List T}
+    (h : Den Φ d a b) (hnd : (a ++ b).Nodup) : (d.ins ++ d.outs).Nodup := by
+  obtain ⟨lab, _, ha, hb⟩ := h
+  apply nodup_of_map lab
+  rw [List.map_append, ha, hb]
+  exact hnd
+
+/-! ## Part XV: a batch of components with interleaved interfaces -/
+
+theorem zipWith_append_getD {α : Type} (Ys Ms : List (List α)) (k : Nat) (h : Ys.length = Ms.length) :
+    (List.zipWith (· ++ ·) Ys Ms).getD k [] = Ys.getD k [] ++ Ms.getD k [] := by
+  simp only [List.getD_eq_getElem?_getD, List.getElem?_zipWith]
+  by_cases hk : k < Ys.length
+  · rw [List.getElem?_eq_getElem hk, List.getElem?_eq_getElem (h ▸ hk)]; rfl
+  · rw [List.getElem?_eq_none (by omega), List.getElem?_eq_none (by omega)]; rfl
+
+theorem zipWith_append_lengths {α : Type} (Ys Ms : List (List α)) :
+    (List.zipWith (· ++ ·) Ys Ms).map List.length =
+      List.zipWith (· + ·) (Ys.map List.length) (Ms.map List.length) := by
+  induction Ys generalizing Ms with
+  | nil => simp
+  | cons a Ys ih => cases Ms with
+    | nil => simp
+    | cons b Ms => simp [ih Ms]
+
+/-- reading an interleaving of two segmentations block by block -/
+theorem splitSegs_interleave {α : Type} (k1 k2 : List Nat) (y m : List α) (hk : k1.length = k2.length)
+    (hy : k1.sum = y.length) (hm : k2.sum = m.length) (k : Nat) :
+    (splitSegs (List.zipWith (· + ·) k1 k2)
+      (interleave (splitSegs k1 y) (splitSegs k2 m))).getD k [] =
+      (splitSegs k1 y).getD k [] ++ (splitSegs k2 m).getD k [] := by
+  have e : List.zipWith (· + ·) k1 k2 =
+      (List.zipWith (· ++ ·) (splitSegs k1 y) (splitSegs k2 m)).map List.length := by
+    rw [zipWith_append_lengths, splitSegs_map_length _ _ (Nat.le_of_eq hy),
+      splitSegs_map_length _ _ (Nat.le_of_eq hm)]
+  rw [e]
+  unfold interleave
+  rw [splitSegs_map_length_flatten, zipWith_append_getD _ _ _ (by simp [hk])]
+
+theorem interleave_length {α : Type} (k1 k2 : List Nat) (y m : List α) (_hk : k1.length = k2.length)
+    (hy : k1.sum = y.length) (hm : k2.sum = m.length) :
+    (interleave (splitSegs k1 y) (splitSegs k2 m)).length = (List.zipWith (· + ·) k1 k2).sum := by
+  unfold interleave
+  rw [List.length_flatten, zipWith_append_lengths, splitSegs_map_length _ _ (Nat.le_of_eq hy),
+    splitSegs_map_length _ _ (Nat.le_of_eq hm)]
+
+/-- a batch whose outputs interleave two families (results and residuals) -/
+theorem den_batch_out {Φ : A → List T → List T → Prop} [Inhabited T] {F : PDiag O A}
+    (Qs : List (PDiag O A)) (hF : F.wf = true) (hQ : ∀ Q ∈ Qs, Q.wf = true) (hiso : F ≅ juxtR Qs)
+    (ka k1 k2 : List Nat) (hk : k1.length = k2.length)
+    (hins : Qs.map (·.ins.length) = ka) (houts : Qs.map (·.outs.length) = List.zipWith (· + ·) k1 k2)
+    (x y m : List T) (hx : x.length = ka.sum) (hy : k1.sum = y.length) (hm : k2.sum = m.length) :
+    Den Φ F x (interleave (splitSegs k1 y) (splitSegs k2 m)) ↔ ∀ k, k < Qs.length →
+      Den Φ (Qs.getD k PDiag.empty) ((splitSegs ka x).getD k [])
+        ((splitSegs k1 y).getD k [] ++ (splitSegs k2 m).getD k []) := by
+  rw [den_iso hF hiso, den_juxtR_segs Qs hQ _ _ (by rw [hins]; exact hx)
+    (by rw [houts]; exact interleave_length k1 k2 y m hk hy hm)]
+  constructor
+  · intro h k hk'
+    have := h k hk'
+    rwa [hins, houts, splitSegs_interleave k1 k2 y m hk hy hm] at this
+  · intro h k hk'
+    rw [hins, houts, splitSegs_interleave k1 k2 y m hk hy hm]
+    exact h k hk'
+
+/-- a batch whose inputs interleave two families (residuals and cotangents) -/
+theorem den_batch_in {Φ : A → List T → List T → Prop} [Inhabited T] {F : PDiag O A}
+    (Qs : List (PDiag O A)) (hF : F.wf = true) (hQ : ∀ Q ∈ Qs, Q.wf = true) (hiso : F ≅ juxtR Qs)
+    (ka k1 k2 : List Nat) (hk : k1.length = k2.length)
+    (hins : Qs.map (·.ins.length) = List.zipWith (· + ·) k1 k2) (houts : Qs.map (·.outs.length) = ka)
+    (g y m : List T) (hg : g.length = ka.sum) (hy : k1.sum = y.length) (hm : k2.sum = m.length) :
+    Den Φ F (interleave (splitSegs k1 y) (splitSegs k2 m)) g ↔ ∀ k, k < Qs.length →
+      Den Φ (Qs.getD k PDiag.empty)
+        ((splitSegs k1 y).getD k [] ++ (splitSegs k2 m).getD k []) ((splitSegs ka g).getD k []) := by
+  rw [den_iso hF hiso, den_juxtR_segs Qs hQ _ _
+    (by rw [hins]; exact interleave_length k1 k2 y m hk hy hm) (by rw [houts]; exact hg)]
+  constructor
+  · intro h k hk'
+    have := h k hk'
+    rwa [hins, houts, splitSegs_interleave k1 k2 y m hk hy hm] at this
+  · intro h k hk'
+    rw [hins, houts, splitSegs_interleave k1 k2 y m hk hy hm]
+    exact h k hk'
+
+/-! ## Part XVI: conjugating with an interleaving and back -/
+
+theorem perm_pos {l : List Nat} {N : Nat} (h : l.Perm (List.range N)) :
+    (∀ k v, l[k]? = some v → l.idxOf v = k) ∧ (∀ v, v < N → l[l.idxOf v]? = some v) := by
+  have hnd : l.Nodup := h.nodup_iff.2 List.nodup_range
+  constructor
+  · intro k v hk
+    obtain ⟨hk', rfl⟩ := List.getElem?_eq_some_iff.1 hk
+    exact hnd.idxOf_getElem k hk'
+  · intro v hv
+    have hm : v ∈ l := h.mem_iff.2 (List.mem_range.2 hv)
+    have hi := List.idxOf_lt_length_iff.2 hm
+    rw [List.getElem?_eq_getElem hi, List.getElem_idxOf hi]
+
+/-- re-reading both interfaces through index lists respects isomorphism -/
+theorem iso_reread {X X' : PDiag O A} (h : X ≅ X') (I J : List Nat)
+    (hI : ∀ i ∈ I, i < X.ins.length) (hJ : ∀ j ∈ J, j < X.outs.length) :
+    (⟨X.nodes, X.edges, I.map (fun i => X.ins.getD i 0), J.map (fun j => X.outs.getD j 0)⟩ :
+      PDiag O A) ≅
+    ⟨X'.nodes, X'.edges, I.map (fun i => X'.ins.getD i 0), J.map (fun j => X'.outs.getD j 0)⟩ := by
+  obtain ⟨π, ρ, h1, h2, h3, h4, h5, h6⟩ := h
+  refine ⟨π, ρ, h1, h2, h3, h4, ?_, ?_⟩
+  · show I.map _ = (I.map _).map π
+    rw [List.map_map]
+    apply List.map_congr_left
+    intro i hi
+    have := hI i hi
+    simp [h5, List.getD_eq_getElem?_getD, List.getElem?_eq_getElem this]
+  · show J.map _ = (J.map _).map π
+    rw [List.map_map]
+    apply List.map_congr_left
+    intro j hj
+    have := hJ j hj
+    simp [h6, List.getD_eq_getElem?_getD, List.getElem?_eq_getElem this]
+
+/-- reading `t.map g` at the position of `v` in `t` gives `g v` -/
+theorem map_getD_idxOf (t : List Nat) (g : Nat → Nat) (N : Nat) (h : t.Perm (List.range N)) :
+    (List.range N).map (fun v => (t.map g).getD (t.idxOf v) 0) = (List.range N).map g := by
+  apply List.map_congr_left
+  intro v hv
+  have := (perm_pos h).2 v (List.mem_range.1 hv)
+  simp [List.getD_eq_getElem?_getD, List.getElem?_map, this]
+
+section roundtrip
+variable [DecidableEq O]
+
+/-- `il(fa, ra) ; (il(fa, ra)† ; D ; il(fb, rb)) ; il(fb, rb)†` is `D` again, up to isomorphism
+    (segments of arbitrary sizes) -/
+theorem il_roundtrip (B : Backend) (hB : B.Lawful) (fa ra fb rb : IC (List O)) (vfa : C08.Valid fa)
+    (vra : C08.Valid ra) (vfb : C08.Valid fb) (vrb : C08.Valid rb) (la : fa.len = ra.len)
+    (lb : fb.len = rb.len) (D : OHG O A)
+    (hD : HasType D (fa.values ++ ra.values) (fb.values ++ rb.values)) :
+    ∃ il0 rhs2 e fx d1 d2 : OHG O A, SOptic.interleaveBlocks fa ra = .ok il0 ∧
+      SOptic.interleaveBlocks fb rb = .ok rhs2 ∧ OHG.compose B il0.dagger D = .ok e ∧
+      OHG.compose B e rhs2 = .ok fx ∧
+      HasType fx (interleave fa.segsL ra.segsL) (interleave fb.segsL rb.segsL) ∧
+      fx.h.x = D.h.x ∧
+      OHG.compose B il0 fx = .ok d1 ∧ OHG.compose B d1 rhs2.dagger = .ok d2 ∧
+      HasType d2 (fa.values ++ ra.values) (fb.values ++ rb.values) ∧ d2.h.x = D.h.x ∧
+      d2.toPlain ≅ D.toPlain := by
+  obtain ⟨il0, h0, t0, x0, p0, m0, _, _⟩ := il_sem (A := A) fa ra vfa vra la
+  obtain ⟨rhs2, h2, t2, x2, p2, m2, _, _⟩ := il_sem (A := A) fb rb vfb vrb lb
+  obtain ⟨e, he, te, xe, ge, _, _⟩ := compose_sem B hB t0.dagger hD
+  obtain ⟨fx, hfx, tfx, xfx, gfx, _, _⟩ := compose_sem B hB te t2
+  obtain ⟨d1, hd1, td1, xd1, gd1, _, _⟩ := compose_sem B hB t0 tfx
+  obtain ⟨d2, hd2, td2, xd2, gd2, _, _⟩ := compose_sem B hB td1 t2.dagger
+  have wD : D.wf = true := (OHG.wf_iff D).2 hD.1
+  have w0 : il0.wf = true := (OHG.wf_iff _).2 t0.1
+  have w0' : il0.dagger.wf = true := (OHG.wf_iff _).2 t0.dagger.1
+  have w2 : rhs2.wf = true := (OHG.wf_iff _).2 t2.1
+  have w2' : rhs2.dagger.wf = true := (OHG.wf_iff _).2 t2.dagger.1
+  have wfx : fx.wf = true := (OHG.wf_iff _).2 tfx.1
+  have hxfx : fx.h.x = D.h.x := by
+    rw [xfx, xe, x2]
+    show il0.h.x ++ D.h.x ++ [] = D.h.x
+    rw [x0]; simp
+  refine ⟨il0, rhs2, e, fx, d1, d2, h0, h2, he, hfx, tfx, hxfx, hd1, hd2, td2, ?_, ?_⟩
+  · rw [xd2, xd1, x0, hxfx]
+    show [] ++ D.h.x ++ rhs2.h.x = D.h.x
+    rw [x2]; simp
+  · -- the two tables are permutations
+    have q0 : (ilTable (fa.sources.table ++ ra.sources.table) fa.len).Perm
+        (List.range (fa.values ++ ra.values).length) := by
+      have := monogamous_readers_perm (C03.wfP w0) m0
+      rw [p0] at this
+      simpa [readers, PDiag.n] using this
+    have q2 : (ilTable (fb.sources.table ++ rb.sources.table) fb.len).Perm
+        (List.range (fb.values ++ rb.values).length) := by
+      have := monogamous_readers_perm (C03.wfP w2) m2
+      rw [p2] at this
+      simpa [readers, PDiag.n] using this
+    have lt0 : ∀ v ∈ ilTable (fa.sources.table ++ ra.sources.table) fa.len,
+        v < (fa.values ++ ra.values).length := fun v hv => List.mem_range.1 (q0.mem_iff.1 hv)
+    have lt2 : ∀ v ∈ ilTable (fb.sources.table ++ rb.sources.table) fb.len,
+        v < (fb.values ++ rb.values).length := fun v hv => List.mem_range.1 (q2.mem_iff.1 hv)
+    have li : D.toPlain.ins.length = (fa.values ++ ra.values).length :=
+      C03.plain_ins_length wD hD.2.1
+    have lo : D.toPlain.outs.length = (fb.values ++ rb.values).length :=
+      C03.plain_outs_length wD hD.2.2
+    -- first conjugation
+    have p0' : il0.dagger.toPlain = ⟨fa.values ++ ra.values, [],
+        ilTable (fa.sources.table ++ ra.sources.table) fa.len,
+        List.range (fa.values ++ ra.values).length⟩ := by
+      show il0.toPlain.dagger = _
+      rw [p0]; rfl
+    have p2' : rhs2.dagger.toPlain = ⟨fb.values ++ rb.values, [],
+        ilTable (fb.sources.table ++ rb.sources.table) fb.len,
+        List.range (fb.values ++ rb.values).length⟩ := by
+      show rhs2.toPlain.dagger = _
+      rw [p2]; rfl
+    have hS0 : (⟨fa.values ++ ra.values, [], List.range (fa.values ++ ra.values).length,
+        ilTable (fa.sources.table ++ ra.sources.table) fa.len⟩ : PDiag O A).wf = true :=
+      spider_wf_of_perm _ _ _ (fun v hv => List.mem_range.1 hv) lt0
+    have hS0' : (⟨fa.values ++ ra.values, [],
+        ilTable (fa.sources.table ++ ra.sources.table) fa.len,
+        List.range (fa.values ++ ra.values).length⟩ : PDiag O A).wf = true :=
+      spider_wf_of_perm _ _ _ lt0 (fun v hv => List.mem_range.1 hv)
+    have hS2 : (⟨fb.values ++ rb.values, [], List.range (fb.values ++ rb.values).length,
+        ilTable (fb.sources.table ++ rb.sources.table) fb.len⟩ : PDiag O A).wf = true :=
+      spider_wf_of_perm _ _ _ (fun v hv => List.mem_range.1 hv) lt2
+    have hS2' : (⟨fb.values ++ rb.values, [],
+        ilTable (fb.sources.table ++ rb.sources.table) fb.len,
+        List.range (fb.values ++ rb.values).length⟩ : PDiag O A).wf = true :=
+      spider_wf_of_perm _ _ _ lt2 (fun v hv => List.mem_range.1 hv)
+    have hty1 := C03.plain_types_match w0' wD (t0.dagger.2.2.trans hD.2.1.symm)
+    have hty2 : D.toPlain.targetType = rhs2.toPlain.sourceType := by
+      rw [C03.plain_target wD hD.2.2, C03.plain_source w2 t2.2.1]
+    rw [p0'] at ge hty1
+    rw [p2] at gfx hty2
+    have key1 := glue_both (u1 := fun v => v) (u2 := fun v => v) (C03.wfP wD) hS0' hS2 hty1 hty2
+      (fun _ _ h => (range_getElem?_some h).1) (fun v hv => List.getElem?_range hv)
+      (fun _ _ h => (range_getElem?_some h).1) (fun v hv => List.getElem?_range hv) ge gfx
+    -- second conjugation
+    have hty3 := C03.plain_types_match w0 wfx (t0.2.2.trans tfx.2.1.symm)
+    have hty4 : fx.toPlain.targetType = rhs2.dagger.toPlain.sourceType := by
+      rw [C03.plain_target wfx tfx.2.2, C03.plain_source w2' t2.dagger.2.1]
+    rw [p0] at gd1 hty3
+    rw [p2'] at gd2 hty4
+    have key2 := glue_both
+      (u1 := fun v => (ilTable (fa.sources.table ++ ra.sources.table) fa.len).idxOf v)
+      (u2 := fun v => (ilTable (fb.sources.table ++ rb.sources.table) fb.len).idxOf v)
+      (C03.wfP wfx) hS0 hS2' hty3 hty4 (perm_pos q0).1 (perm_pos q0).2 (perm_pos q2).1
+      (perm_pos q2).2 gd1 gd2
+    -- transport along the first isomorphism
+    have lfi : fx.toPlain.ins.length = (fa.values ++ ra.values).length := by
+      rw [C03.plain_ins_length wfx tfx.2.1, ← C03.plain_outs_length w0 t0.2.2, p0]
+      exact q0.length_eq.trans (List.length_range)
+    have lfo : fx.toPlain.outs.length = (fb.values ++ rb.values).length := by
+      rw [C03.plain_outs_length wfx tfx.2.2, ← C03.plain_outs_length w2 t2.2.2, p2]
+      exact q2.length_eq.trans (List.length_range)
+    have key3 := iso_reread key1
+      ((List.range (fa.values ++ ra.values).length).map
+        (fun v => (ilTable (fa.sources.table ++ ra.sources.table) fa.len).idxOf v))
+      ((List.range (fb.values ++ rb.values).length).map
+        (fun v => (ilTable (fb.sources.table ++ rb.sources.table) fb.len).idxOf v))
+      (by
+        intro i hi
+        obtain ⟨v, hv, rfl⟩ := List.mem_map.1 hi
+        rw [lfi, ← List.length_range (n := (fa.values ++ ra.values).length), ← q0.length_eq]
+        exact List.idxOf_lt_length_iff.2 (q0.mem_iff.2 hv))
+      (by
+        intro i hi
+        obtain ⟨v, hv, rfl⟩ := List.mem_map.1 hi
+        rw [lfo, ← List.length_range (n := (fb.values ++ rb.values).length), ← q2.length_eq]
+        exact List.idxOf_lt_length_iff.2 (q2.mem_iff.2 hv))
+    simp only [List.map_map, Function.comp_def] at key3
+    refine iso_trans key2 (iso_trans key3 ?_)
+    rw [map_getD_idxOf _ _ _ q0, map_getD_idxOf _ _ _ q2, ← li, ← lo, map_getD_range,
+      map_getD_range]
+    exact iso_refl _
+
+end roundtrip
 
 end OH.RevDeriv
